@@ -41,7 +41,7 @@ KEYDIR = os.path.join(core.ROOT, "fixtures", "keys")
 PKG = os.path.dirname(os.path.abspath(paramiko.__file__))
 CLS = {"rsa": RSAKey, "ecdsa": ECDSAKey, "ed25519": Ed25519Key}
 RSA_ALGS = ["ssh-rsa", "rsa-sha2-256", "rsa-sha2-512"]
-SLOW_QUICK, SLOW_SOME, SLOW_ALWAYS = 1 << 15, 1 << 17, 1 << 19   # declared ECDSA mpint lengths (bytes)
+SLOW_QUICK, SLOW_SOME, SLOW_ALWAYS = 1 << 12, 1 << 17, 1 << 19   # declared ECDSA mpint lengths (bytes)
 
 # kid -> (kind, file or None, password, generator args)
 KEYSPEC = [
@@ -177,6 +177,13 @@ def site_of(exc):
     return best or "outside-paramiko"
 
 
+def _short(exc):
+    if isinstance(exc, UnicodeError):
+        return "%s(%r, <%d bytes>, %d, %d, %r)" % (type(exc).__name__, exc.encoding, len(exc.object), exc.start,
+                                                  exc.end, exc.reason)
+    return repr(exc)[:300]
+
+
 def run_verify(key, data, blob):
     """-> ('ret', value) or ('exc', exception)"""
     try:
@@ -191,6 +198,10 @@ def judge(acc, kid, oid, alg, data, blob, expect, family, genuine_blob, replay_e
     origin, key = KEYS[kid][oid]
     how, val = run_verify(key, data, blob)
     acc.ev()
+    if how == "ret" and ((val is True and expect != "false") or (val is False and expect != "true")):
+        if expect == "either":
+            acc.count("equivalent_encoding_" + ("accepted" if val else "rejected"))
+        return val
     cname = type(key).__name__
     rep = {"kid": kid, "oid": oid, "alg": alg, "data_hex": data.hex(), "blob_hex": blob.hex(),
            "expect": expect, "family": family, "gen_pem": GEN_PEM.get(kid)}
@@ -211,11 +222,14 @@ def judge(acc, kid, oid, alg, data, blob, expect, family, genuine_blob, replay_e
             h2, v2 = run_verify(KEYS[kid]["from_type_string"][1], data, blob)
             if not (h2 == "exc" and type(v2) is type(val)):
                 key_s += "|verifier=" + origin
-        acc.violation(key_s, {"exception": repr(val), "verifier": "%s/%s (%s)" % (kid, oid, origin),
+        acc.count("raised")
+        if any(v["key"] == key_s for v in acc.violations):
+            acc.violation(key_s, None, None)     # only counts
+            return "exc"
+        acc.violation(key_s, {"exception": _short(val), "verifier": "%s/%s (%s)" % (kid, oid, origin),
                               "algorithm": alg, "edit": family, "blob": blob.hex(),
                               "traceback": traceback.format_exception(type(val), val, val.__traceback__)[-4:]},
                       rep)
-        acc.count("raised")
         return "exc"
     if val is not True and val is not False:
         acc.violation("answers-bool|%s.verify_ssh_sig|returned-%s" % (cname, type(val).__name__),
@@ -228,8 +242,6 @@ def judge(acc, kid, oid, alg, data, blob, expect, family, genuine_blob, replay_e
         acc.violation("forgery-accepted|%s.verify_ssh_sig|%s|%s" % (cname, alg or SPEC[kid][1], family.split("@")[0]),
                       {"verifier": "%s/%s" % (kid, oid), "case": family, "blob": blob.hex(),
                        "genuine": genuine_blob.hex() if genuine_blob else None}, rep)
-    elif expect == "either":
-        acc.count("equivalent_encoding_" + ("accepted" if val else "rejected"))
     return val
 
 
@@ -391,7 +403,7 @@ def work_edits(item, acc):
     blob = BLOBS[(kid, alg, mi)]
     gsem = R.semantics(kind, blob)
     gname = R.outer(blob)[0]
-    lst = edits(kid, alg, blob, tier, full=(mi == 1 or tier == "thorough"))[lo:hi]
+    lst = edits(kid, alg, blob, tier, full=full_for(tier, mi, oid))[lo:hi]
     for fam, eb in lst:
         big = R.max_declared_mpint(kind, eb)
         if big >= SLOW_ALWAYS or (big >= SLOW_SOME and not (oid == "from_type_string" and mi == 1)) \
@@ -399,7 +411,7 @@ def work_edits(item, acc):
             # util.inflate_long is quadratic: a declared mpint length of 2^17..2^19 (zero-filled by
             # Message.get_bytes) costs seconds to minutes per call.  That is a performance matter C35
             # says nothing about, so these few positions are run under one verifier object only
-            # (2^15..2^18) or left out (>= 2^19) - counted, and stated in the evidence.
+            # (quick: 2^12..2^16, both tiers: 2^17, 2^18) or left out (2^19) - counted, stated in the evidence.
             acc.count("excluded_slow_inflate_long")
             continue
         if eb == blob:
@@ -418,6 +430,12 @@ def work_edits(item, acc):
         if fam in ("bitflip@100", "ecdsa:r=-1", "ed25519:siglen=63", "rsa:sig+n") and len(acc.samples) < 5:
             acc.sample({"case": fam, "key": kid, "verifier": oid, "algorithm": alg, "blob": eb.hex(),
                         "expected": expect, "observed": res if isinstance(res, (bool, str)) else repr(res)})
+
+
+def full_for(tier, mi, oid):
+    """complete single-point edit set?  thorough: always.  quick: message b"a", and not for the two
+    public-bytes objects that are built by the very same constructor call as from_type_string."""
+    return tier == "thorough" or (mi == 1 and oid not in ("msg", "data"))
 
 
 def work(item, acc):
@@ -447,9 +465,9 @@ def main(tier):
                 if tier == "quick" and mi == 2:
                     continue
                 blob = BLOBS[(kid, alg, mi)]
-                n = len(edits(kid, alg, blob, tier, full=(mi == 1 or tier == "thorough")))
                 step = 1500 if kind == "rsa" else 400
                 for oid in KEYS[kid]:
+                    n = len(edits(kid, alg, blob, tier, full=full_for(tier, mi, oid)))
                     for lo in range(0, n, step):
                         items.append(("edits", kid, alg, mi, oid, tier, lo, min(n, lo + step)))
     ck.merge(core.pmap(items, work))
